@@ -109,6 +109,8 @@ struct Cfg {
     wrappers: Option<String>,                // exported functions `T::with_mut(|c| body)` are translated as methods of T
     derive_eq: bool,                         // emit `T_eqb` for types deriving PartialEq
     oracles: Vec<(String, String)>,          // extra parameters of every generated function (foreign calls): (name, Coq type)
+    use_fns: HashSet<String>,                // functions of this file translated into another generated file (imported): callable, not emitted
+    fuel: bool,                              // recursive functions and loops: every function takes `fuel : nat`, one mutual Fixpoint
 }
 
 struct Tr {
@@ -133,6 +135,11 @@ struct Fx<'a> {
     fresh: usize,
     calls: Vec<(String, String)>,
     ptr_src: HashMap<String, String>, // pointer variable -> the local slice value it points to the start of
+    loop_mode: Option<(String, Vec<String>)>, // inside a lifted loop body: (the call that runs the next iteration, the loop-carried variables)
+    lifted: Vec<String>,              // lifted loop functions (members of the mutual Fixpoint)
+    full_ty: String,                  // the function's whole result type (outs * ret)
+    fname: String,
+    loops_done: HashMap<usize, (String, Vec<String>, Vec<String>)>, // source line of a loop -> (lifted function, free variables, carried variables)
 }
 
 fn path_str(p: &Path) -> Vec<String> {
@@ -273,13 +280,24 @@ impl<'a> Fx<'a> {
                 parts.push(a.to_string());
             }
         }
-        if parts.is_empty() {
-            "GOk tt".into()
-        } else if parts.len() == 1 {
-            format!("GOk {}", paren(&parts[0]))
-        } else {
-            format!("GOk ({})", parts.join(", "))
+        let val = if parts.is_empty() { "tt".to_string() } else if parts.len() == 1 { paren(&parts[0]) } else { format!("({})", parts.join(", ")) };
+        if self.loop_mode.is_some() {
+            // a `return` (or `?`) inside a loop body leaves the whole function
+            return format!("GOk (LRet {})", val);
         }
+        format!("GOk {}", val)
+    }
+    /// control reaches the end of the block being translated: the function returns unit, or (inside a
+    /// lifted loop body) the next iteration runs
+    fn fall_off(&self) -> String {
+        match &self.loop_mode {
+            Some((call, carried)) => format!("{} {}", call, carried.join(" ")),
+            None => self.ret_expr(None),
+        }
+    }
+    /// leaving the loop (`break`, or the counter reached zero): hand the loop-carried variables back
+    fn loop_exit(carried: &[String]) -> String {
+        if carried.is_empty() { "GOk (LNext tt)".into() } else if carried.len() == 1 { format!("GOk (LNext {})", carried[0]) } else { format!("GOk (LNext ({}))", carried.join(", ")) }
     }
 
     // ------------------------------------------------------------------ places
@@ -294,7 +312,7 @@ impl<'a> Fx<'a> {
             Expr::Field(f) => {
                 let (root, mut fs) = self.place(&f.base)?;
                 let bt = self.place_ty(&root, &fs)?;
-                if matches!(&f.member, Member::Unnamed(i) if i.index == 0) && !matches!(bt, Ty::Named(_)) {
+                if matches!(&f.member, Member::Unnamed(i) if i.index == 0) && !matches!(bt, Ty::Named(_) | Ty::Tuple(_)) {
                     // `.0` of a newtype that is represented by its field
                     return Ok((root, fs));
                 }
@@ -360,10 +378,19 @@ impl<'a> Fx<'a> {
             Expr::Unsafe(u) => self.block_value(&u.block, pre),
             Expr::Block(b) => self.block_value(&b.block, pre),
             Expr::Path(p) => self.path_expr(p),
-            Expr::Field(_) => {
-                let (root, fs) = self.place(e)?;
-                let t = self.place_ty(&root, &fs)?;
-                Ok((self.place_get(&root, &fs), t))
+            Expr::Field(f) => {
+                if let Ok((root, fs)) = self.place(e) {
+                    let t = self.place_ty(&root, &fs)?;
+                    return Ok((self.place_get(&root, &fs), t));
+                }
+                // `.0` / `.1` of a pair-valued expression
+                let (a, t) = self.expr(&f.base, pre)?;
+                match (&f.member, t) {
+                    (Member::Unnamed(i), Ty::Tuple(ts)) if ts.len() == 2 && i.index < 2 => {
+                        Ok((format!("({} {})", if i.index == 0 { "fst" } else { "snd" }, a), ts[i.index as usize].clone()))
+                    }
+                    _ => err("field of a value that is neither a struct place nor a pair", e.span()),
+                }
             }
             Expr::Unary(u) => match u.op {
                 UnOp::Deref(_) => self.expr(&u.expr, pre),
@@ -518,6 +545,36 @@ impl<'a> Fx<'a> {
                     self.calls.push(("".into(), ")".into()));
                     Ok((v, elt))
                 }
+            }
+            Expr::Macro(m) if m.mac.path.is_ident("matches") => {
+                // `matches!(e, PAT)` / `matches!(e, PAT if guard)`
+                let (scrut, pat, guard) = m.mac.parse_body_with(|input: syn::parse::ParseStream| {
+                    let e: Expr = input.parse()?;
+                    input.parse::<Token![,]>()?;
+                    let p = Pat::parse_multi_with_leading_vert(input)?;
+                    let g = if input.peek(Token![if]) { input.parse::<Token![if]>()?; Some(input.parse::<Expr>()?) } else { None };
+                    let _ = input.parse::<Option<Token![,]>>()?;
+                    Ok((e, p, g))
+                }).map_err(|e| format!("T8: matches!: {}", e))?;
+                let (a, t) = self.expr(&scrut, pre)?;
+                let save = (self.tyenv.clone(), self.alias.clone());
+                let pt = self.gpat(&pat, &t)?;
+                let res = match guard {
+                    None => Ok((format!("(match {} with {} => true | _ => false end)", a, pt), Ty::Bool)),
+                    Some(g) => {
+                        let mut p2 = String::new();
+                        let depth = self.calls.len();
+                        let (b, _) = self.expr(&g, &mut p2)?;
+                        let closers = self.close(depth);
+                        let v = self.fresh("mt");
+                        let _ = writeln!(pre, "gbind (match {} with {} => ({}GOk {}{}) | _ => GOk false end) (fun {} =>", a, pt, p2, paren(&b), closers, v);
+                        self.calls.push(("".into(), ")".into()));
+                        Ok((v, Ty::Bool))
+                    }
+                };
+                self.tyenv = save.0;
+                self.alias = save.1;
+                res
             }
             Expr::Macro(m) => {
                 let name = path_str(&m.mac.path).join("::");
@@ -728,6 +785,10 @@ impl<'a> Fx<'a> {
             }
             Le(_) if self.tr.cfg.f64_decoded && (lt == Ty::F64 || rt == Ty::F64) => (format!("(f_le {} {})", l, r), Ty::Bool),
             Ge(_) if self.tr.cfg.f64_decoded && (lt == Ty::F64 || rt == Ty::F64) => (format!("(f_le {} {})", r, l), Ty::Bool),
+            Eq(_) | Ne(_) if matches!(&lt, Ty::List(_)) || matches!(&rt, Ty::List(_)) => {
+                let eq = format!("(vec_eqb {} {})", l, r);
+                (if matches!(b.op, Eq(_)) { eq } else { format!("(negb {})", eq) }, Ty::Bool)
+            }
             Eq(_) | Ne(_) if matches!(&lt, Ty::Named(_)) || matches!(&rt, Ty::Named(_)) => {
                 let n = match (&lt, &rt) { (Ty::Named(n), _) | (_, Ty::Named(n)) => n.clone(), _ => unreachable!() };
                 let eq = format!("({}_eqb {} {})", n, l, r);
@@ -942,6 +1003,84 @@ impl<'a> Fx<'a> {
             }
             return err("map/and_then on a value that is not a Result<_, ErrorCode>", m.span());
         }
+        // `v.iter().position(|PAT| body)`: index of the first element the closure accepts (the closure may panic)
+        if name == "position" && args.len() == 1 {
+            if let (Expr::MethodCall(it), Expr::Closure(c)) = (&*m.receiver, args[0]) {
+                if it.method == "iter" && c.inputs.len() == 1 {
+                    let (l, lt) = self.expr(&it.receiver, pre)?;
+                    let elt = match lt { Ty::List(t) => *t, _ => Ty::Unknown };
+                    let save = (self.tyenv.clone(), self.alias.clone());
+                    let pt = self.gpat(&c.inputs[0], &elt)?;
+                    let mut p2 = String::new();
+                    let depth = self.calls.len();
+                    let (b, _) = self.expr(&c.body, &mut p2)?;
+                    let closers = self.close(depth);
+                    self.tyenv = save.0;
+                    self.alias = save.1;
+                    let v = self.fresh("pos");
+                    let binder = if pt.starts_with('(') { format!("'{}", pt) } else { pt };
+                    let _ = writeln!(pre, "gbind (vec_position (fun {} => ({}GOk {}{})) {}) (fun {} =>", binder, p2, paren(&b), closers, l, v);
+                    self.calls.push(("".into(), ")".into()));
+                    return Ok((v, Ty::Opt(Box::new(Ty::Int("usize".into())))));
+                }
+            }
+        }
+        // `b.then(|| e)`: the closure runs only when b holds
+        if name == "then" && args.len() == 1 {
+            if let Expr::Closure(c) = args[0] {
+                if c.inputs.is_empty() {
+                    let (b, bt) = self.expr(&m.receiver, pre)?;
+                    if bt == Ty::Bool {
+                        let mut p2 = String::new();
+                        let depth = self.calls.len();
+                        let (x, xt) = self.expr(&c.body, &mut p2)?;
+                        let closers = self.close(depth);
+                        let v = self.fresh("th");
+                        let _ = writeln!(pre, "gbind (if {} then ({}GOk (Some {}){}) else GOk None) (fun {} =>", b, p2, paren(&x), closers, v);
+                        self.calls.push(("".into(), ")".into()));
+                        return Ok((v, Ty::Opt(Box::new(xt))));
+                    }
+                }
+            }
+        }
+        // Option combinators on values
+        if matches!(name.as_str(), "unwrap_or" | "or" | "unwrap" | "expect") {
+            let mut probe = String::new();
+            let depth = self.calls.len();
+            let fresh0 = self.fresh;
+            let save = (self.tyenv.clone(), self.alias.clone());
+            let probed = self.expr(&m.receiver, &mut probe);
+            let _ = self.close(depth);
+            self.fresh = fresh0;
+            self.tyenv = save.0;
+            self.alias = save.1;
+            if let Ok((_, Ty::Opt(inner))) = probed {
+                let (a, _) = self.expr(&m.receiver, pre)?;
+                match name.as_str() {
+                    "unwrap_or" => {
+                        let (d, _) = self.expr(args[0], pre)?;
+                        return Ok((format!("(match {} with Some v_ => v_ | None => {} end)", a, d), *inner));
+                    }
+                    "or" => {
+                        let (d, _) = self.expr(args[0], pre)?;
+                        return Ok((format!("(match {} with Some v_ => Some v_ | None => {} end)", a, d), Ty::Opt(inner)));
+                    }
+                    _ => {
+                        let v = self.fresh("uw");
+                        let _ = writeln!(pre, "gbind (opt_unwrap {}) (fun {} =>", a, v);
+                        self.calls.push(("".into(), ")".into()));
+                        return Ok((v, *inner));
+                    }
+                }
+            }
+        }
+        if name == "last" && args.is_empty() {
+            let (a, t) = self.expr(&m.receiver, pre)?;
+            if let Ty::List(elt) = t {
+                return Ok((format!("(vec_last {})", a), Ty::Opt(elt)));
+            }
+            return err("last() on a value that is not a Vec", m.span());
+        }
         // pure built-ins on values
         match name.as_str() {
             "min" | "max" => {
@@ -1078,7 +1217,10 @@ impl<'a> Fx<'a> {
             return err("argument count", sp);
         }
         let mut call = format!("{}_{} W trap", sig.owner, sig.name);
-        if self.tr.local.contains(&(sig.owner.clone(), sig.name.clone())) { for (o, _) in &self.tr.cfg.oracles { let _ = write!(call, " {}", o); } }
+        if self.tr.local.contains(&(sig.owner.clone(), sig.name.clone())) {
+            for (o, _) in &self.tr.cfg.oracles { let _ = write!(call, " {}", o); }
+            if self.tr.cfg.fuel { call.push_str(" fuel'"); }
+        }
         let mut outs: Vec<(String, Vec<(String, String)>)> = vec![];
         if let Some((root, fs)) = &recv {
             if sig.recv.is_none() {
@@ -1278,7 +1420,7 @@ impl<'a> Fx<'a> {
             if let Some((first, more)) = rest.split_first() {
                 return self.seq(first, more);
             }
-            return Ok(self.ret_expr(None));
+            return Ok(self.fall_off());
         }
         let (s, after) = stmts.split_first().unwrap();
         let last = after.is_empty() && rest.is_empty();
@@ -1315,6 +1457,51 @@ impl<'a> Fx<'a> {
                 }
                 match &l.init {
                     None => cont!(), // deferred initialisation: bound at the assignment
+                    Some(init) if init.diverge.is_some() => {
+                        // `let PAT = e else { diverges };`
+                        let (a, t) = self.expr(&init.expr, &mut out)?;
+                        let save = (self.tyenv.clone(), self.alias.clone());
+                        let pat = self.gpat(&l.pat, &t)?;
+                        let k = self.seq(after, rest)?;
+                        self.tyenv = save.0.clone();
+                        self.alias = save.1.clone();
+                        let els = &init.diverge.as_ref().unwrap().1;
+                        let els_stmts: Vec<Stmt> = match &**els { Expr::Block(b) => b.block.stmts.clone(), e => vec![Stmt::Expr(e.clone(), None)] };
+                        let e = self.branch(&els_stmts, &[], false)?;
+                        self.tyenv = save.0;
+                        self.alias = save.1;
+                        let _ = write!(out, "match {} with\n| {} => (\n{})\n| _ => (\n{})\nend", a, pat, k, e);
+                        let c = self.close(depth);
+                        out.push_str(&c);
+                        return Ok(out);
+                    }
+                    Some(init) if matches!(&*init.expr, Expr::Match(m) if m.arms.iter().any(|a| matches!(&*a.body, Expr::Block(b) if b.block.stmts.len() > 1))) => {
+                        // `let PAT = match e { A => v, B => { stmts; w } }; rest`  ==  `match e { A => { let PAT = v; }, B => { stmts; let PAT = w; } } rest`
+                        let m = match &*init.expr { Expr::Match(m) => m, _ => unreachable!() };
+                        let mut m2 = m.clone();
+                        for arm in m2.arms.iter_mut() {
+                            let (mut stmts, last): (Vec<Stmt>, Expr) = match &*arm.body {
+                                Expr::Block(b) => {
+                                    let n = b.block.stmts.len();
+                                    match b.block.stmts.last() {
+                                        Some(Stmt::Expr(e, None)) => (b.block.stmts[..n - 1].to_vec(), e.clone()),
+                                        _ => return err("block arm of a `let = match` without a final value", arm.span()),
+                                    }
+                                }
+                                e => (vec![], e.clone()),
+                            };
+                            stmts.push(Stmt::Local(Local { attrs: vec![], let_token: Default::default(), pat: l.pat.clone(),
+                                init: Some(LocalInit { eq_token: Default::default(), expr: Box::new(last), diverge: None }), semi_token: Default::default() }));
+                            arm.body = Box::new(Expr::Block(ExprBlock { attrs: vec![], label: None, block: Block { brace_token: Default::default(), stmts } }));
+                        }
+                        let mut conts: Vec<&[Stmt]> = vec![after];
+                        conts.extend_from_slice(rest);
+                        let s = self.match_stmt(&m2, &conts, false, &mut out)?;
+                        out.push_str(&s);
+                        let cl = self.close(depth);
+                        out.push_str(&cl);
+                        return Ok(out);
+                    }
                     Some(init) => {
                         let (a, t) = self.expr(&init.expr, &mut out)?;
                         self.bind_pat(&l.pat, &a, t, &mut out)?;
@@ -1347,6 +1534,33 @@ impl<'a> Fx<'a> {
                         }
                         let c = self.close(depth);
                         out.push_str(&c);
+                        Ok(out)
+                    }
+                    Expr::If(i) if matches!(&*i.cond, Expr::Let(_)) => {
+                        let l = match &*i.cond { Expr::Let(l) => l, _ => unreachable!() };
+                        let mut conts: Vec<&[Stmt]> = vec![after];
+                        conts.extend_from_slice(rest);
+                        let s = self.if_let(l, i, &conts, is_tail, &mut out)?;
+                        out.push_str(&s);
+                        let cl = self.close(depth);
+                        out.push_str(&cl);
+                        Ok(out)
+                    }
+                    Expr::Break(b) => {
+                        if b.label.is_some() || b.expr.is_some() { return err("labelled break / break with a value", b.span()); }
+                        let carried = match &self.loop_mode { Some((_, c)) => c.clone(), None => return err("break outside a translated loop", b.span()) };
+                        out.push_str(&Self::loop_exit(&carried));
+                        let c = self.close(depth);
+                        out.push_str(&c);
+                        Ok(out)
+                    }
+                    Expr::ForLoop(fl) => {
+                        let mut conts: Vec<&[Stmt]> = vec![after];
+                        conts.extend_from_slice(rest);
+                        let s = self.for_loop(fl, &conts, &mut out)?;
+                        out.push_str(&s);
+                        let cl = self.close(depth);
+                        out.push_str(&cl);
                         Ok(out)
                     }
                     Expr::If(i) => {
@@ -1446,6 +1660,164 @@ impl<'a> Fx<'a> {
                 }
             }
         }
+    }
+
+    /// the value of `root` after storing `val` into the place `root.fs`
+    fn place_rebuild(&self, root: &str, fs: &[(String, String)], val: &str) -> String {
+        let mut v = val.to_string();
+        for k in (0..fs.len()).rev() {
+            let base = self.place_get(root, &fs[..k]);
+            v = format!("({}_set_{} {} {})", fs[k].0, fs[k].1, base, v);
+        }
+        v
+    }
+
+    /// `if let PAT = e { A } else { B }` followed by the continuations
+    fn if_let(&mut self, l: &ExprLet, i: &ExprIf, conts: &[&[Stmt]], is_tail: bool, pre: &mut String) -> R<String> {
+        let save = (self.tyenv.clone(), self.alias.clone());
+        let mut special: Option<(String, String)> = None;
+        if let Expr::MethodCall(mc) = &*l.expr {
+            if mc.method == "last_mut" && mc.args.is_empty() {
+                // `if let Some(x) = v.last_mut()`: x is the last element of the Vec place, mutations of x are written back into it
+                let (root, fs) = self.place(&mc.receiver)?;
+                let elt = match self.place_ty(&root, &fs)? { Ty::List(t) => *t, _ => return err("last_mut on a place that is not a Vec", mc.span()) };
+                let inner = match &*l.pat {
+                    Pat::TupleStruct(ts) if ts.path.segments.len() == 1 && ts.path.segments[0].ident == "Some" && ts.elems.len() == 1 => &ts.elems[0],
+                    _ => return err("if-let on last_mut() with a pattern other than Some(..)", l.span()),
+                };
+                let cur = self.place_get(&root, &fs);
+                let (patstr, child, child_ty, elem_tmpl) = match inner {
+                    Pat::Ident(id) => (id.ident.to_string(), id.ident.to_string(), elt.clone(), "{}".to_string()),
+                    Pat::Tuple(tp) => {
+                        let tys = match &elt { Ty::Tuple(ts) => ts.clone(), _ => vec![Ty::Unknown; tp.elems.len()] };
+                        let mut names = vec![]; let mut tmpl = vec![]; let mut child: Option<(String, Ty)> = None;
+                        for (k, e) in tp.elems.iter().enumerate() {
+                            match e {
+                                Pat::Ident(id) if child.is_none() => { let n = id.ident.to_string(); names.push(n.clone()); tmpl.push("{}".to_string()); child = Some((n, tys.get(k).cloned().unwrap_or(Ty::Unknown))); }
+                                Pat::Wild(_) => { let n = self.fresh("lm"); names.push(n.clone()); tmpl.push(n); }
+                                _ => return err("pattern on the element of last_mut()", e.span()),
+                            }
+                        }
+                        let (c, ct) = child.ok_or("T8: last_mut() pattern binds nothing")?;
+                        (format!("({})", names.join(", ")), c, ct, format!("({})", tmpl.join(", ")))
+                    }
+                    _ => return err("pattern on the element of last_mut()", inner.span()),
+                };
+                let child_ty = self.resolve_self(child_ty);
+                self.tyenv.insert(child.clone(), child_ty);
+                let rebuilt = self.place_rebuild(&root, &fs, &format!("(vec_upd_last {} {})", cur, elem_tmpl));
+                self.alias.insert(child, (root, rebuilt));
+                special = Some((format!("vec_last {}", cur), format!("Some {}", patstr)));
+            }
+        }
+        let (scrut, pat) = match special {
+            Some(x) => x,
+            None => {
+                let (a, t) = self.expr(&l.expr, pre)?;
+                let p = self.gpat(&l.pat, &t)?;
+                (a, p)
+            }
+        };
+        let wild = match &*l.pat {
+            Pat::TupleStruct(ts) if ts.path.segments.len() == 1 && ts.path.segments[0].ident == "Some" && ts.elems.len() == 1 && Self::irrefutable(&ts.elems[0]) => "None",
+            _ => "_",
+        };
+        let a = self.branch(&i.then_branch.stmts, conts, is_tail)?;
+        self.tyenv = save.0.clone();
+        self.alias = save.1.clone();
+        let b = match &i.else_branch {
+            Some((_, eb)) => match &**eb {
+                Expr::Block(bl) => self.branch(&bl.block.stmts, conts, is_tail)?,
+                other => {
+                    let st = [Stmt::Expr(other.clone(), if is_tail { None } else { Some(Default::default()) })];
+                    self.seq_owned(&st, conts)?
+                }
+            },
+            None => self.seq(&[], conts)?,
+        };
+        self.tyenv = save.0;
+        self.alias = save.1;
+        Ok(format!("match {} with\n| {} => (\n{})\n| {} => (\n{})\nend", scrut, pat, a, wild, b))
+    }
+
+    /// `for _ in 0..count { body }`: the body is lifted into a member of the mutual Fixpoint that runs one iteration per
+    /// unit of fuel; `break` / the exhausted counter hand the loop-carried variables back, `return` and `?` leave the function.
+    fn for_loop(&mut self, fl: &ExprForLoop, conts: &[&[Stmt]], pre: &mut String) -> R<String> {
+        if !self.tr.cfg.fuel { return err("a loop (translate this file with --fuel)", fl.span()); }
+        if self.loop_mode.is_some() { return err("nested loops", fl.span()); }
+        if !matches!(&*fl.pat, Pat::Wild(_)) { return err("loop variable (only `for _ in 0..n`)", fl.pat.span()); }
+        let count_expr = match &*fl.expr {
+            Expr::Range(r) if matches!(r.limits, RangeLimits::HalfOpen(_)) => match (&r.start, &r.end) {
+                (Some(st), Some(en)) if matches!(&**st, Expr::Lit(ExprLit { lit: Lit::Int(i), .. }) if i.base10_digits() == "0") => en,
+                _ => return err("loop range (only `0..n`)", fl.expr.span()),
+            },
+            _ => return err("loop iterator (only `0..n`)", fl.expr.span()),
+        };
+        let (cnt, _) = self.expr(count_expr, pre)?;
+        use quote::ToTokens;
+        let toks: Vec<String> = rust_tokens(&fl.body.to_token_stream().to_string());
+        let mut carried: Vec<String> = self.outs.clone();
+        for k in 1..toks.len().saturating_sub(1) {
+            let op = toks[k + 1].as_str();
+            if (op == "=" || (op.len() == 2 && op.ends_with('=') && !matches!(op, "==" | "!=" | "<=" | ">="))) && !matches!(toks[k - 1].as_str(), "let" | "mut" | ".")
+                && self.tyenv.contains_key(&toks[k]) && !carried.contains(&toks[k]) {
+                carried.push(toks[k].clone());
+            }
+        }
+        let line = fl.span().start().line;
+        let mut oracles = String::new();
+        for (o, _) in &self.tr.cfg.oracles { let _ = write!(oracles, " {}", o); }
+        if let Some((lname, free, carried0)) = self.loops_done.get(&line).cloned() {
+            // the same source loop reached through another copy of the continuation: one lifted function serves all
+            if carried0 != carried || free.iter().any(|v| !self.tyenv.contains_key(v)) { return err(&format!("a loop reached with different variables in scope: carried {:?} vs {:?}, free {:?}", carried0, carried, free), fl.span()); }
+            let k = self.seq(&[], conts)?;
+            let cpat = if carried.is_empty() { "_".to_string() } else if carried.len() == 1 { carried[0].clone() } else { format!("({})", carried.join(", ")) };
+            return Ok(format!("match {} W trap{} fuel' {} {} {} with\n| GPanic s_ => GPanic s_\n| GOk (LRet r_) => GOk r_\n| GOk (LNext {}) => (\n{})\nend",
+                lname, oracles, paren(&cnt), free.join(" "), carried.join(" "), cpat, k));
+        }
+        // variables whose first mention in the body binds them (`let .. x .. =`) are not inputs of the loop
+        let mut bound_first: HashSet<String> = HashSet::new();
+        {
+            let mut seen: HashSet<String> = HashSet::new();
+            let mut in_let = false;
+            for t in &toks {
+                if t == "let" { in_let = true; continue; }
+                if in_let && t == "=" { in_let = false; continue; }
+                if t.chars().all(|c| c.is_alphanumeric() || c == '_') && !seen.contains(t) {
+                    seen.insert(t.clone());
+                    if in_let { bound_first.insert(t.clone()); }
+                }
+            }
+        }
+        let lname = format!("{}_loop{}", self.fname, self.loops_done.len() + 1);   // numbered within the function: a name must not depend on line numbers
+        let cvar = format!("cnt_{}", self.fresh);
+        let save_env = (self.tyenv.clone(), self.alias.clone());
+        let saved_calls = std::mem::take(&mut self.calls);
+        self.alias.clear();
+        self.loop_mode = Some((format!("{} W trap{} fuel' ({} - 1) @@FREE@@", lname, oracles, cvar), carried.clone()));
+        let body = self.branch(&fl.body.stmts, &[], false);
+        self.loop_mode = None;
+        self.calls = saved_calls;
+        let body = body?;
+        self.tyenv = save_env.0.clone();
+        self.alias = save_env.1;
+        let mut free: Vec<String> = save_env.0.keys().filter(|v| !v.contains('#') && !carried.contains(v) && !bound_first.contains(*v) && has_word(&body, v)).cloned().collect();
+        free.sort();
+        let body = body.replace("@@FREE@@", &free.join(" "));
+        let ty_of = |me: &Self, v: &String| -> String { match save_env.0.get(v) { Some(t) => me.resolve_self(t.clone()).coq(), None => "_".into() } };
+        let mut params = String::new();
+        for v in free.iter().chain(carried.iter()) { let _ = write!(params, " ({} : {})", v, ty_of(self, v)); }
+        let carried_ty = if carried.is_empty() { "unit".to_string() } else { carried.iter().map(|v| ty_of(self, v)).collect::<Vec<_>>().join(" * ") };
+        let mut ohdr = String::new();
+        for (o, t) in &self.tr.cfg.oracles { let _ = write!(ohdr, " ({} : {})", o, t); }
+        let lifted = format!("(* the `for` loop at line {} *)\nwith {} (W : N) (trap : bool){} (fuel : nat) ({} : N){} {{struct fuel}} : gres (lctl ({}) ({})) :=\n  match fuel with O => GPanic P_fuel | S fuel' =>\n  if {} =? 0 then {} else (\n{})\n  end\n",
+            fl.span().start().line, lname, ohdr, cvar, params, self.full_ty, carried_ty, cvar, Self::loop_exit(&carried), indent(&body));
+        self.lifted.push(lifted);
+        self.loops_done.insert(line, (lname.clone(), free.clone(), carried.clone()));
+        let k = self.seq(&[], conts)?;
+        let cpat = if carried.is_empty() { "_".to_string() } else if carried.len() == 1 { carried[0].clone() } else { format!("({})", carried.join(", ")) };
+        Ok(format!("match {} W trap{} fuel' {} {} {} with\n| GPanic s_ => GPanic s_\n| GOk (LRet r_) => GOk r_\n| GOk (LNext {}) => (\n{})\nend",
+            lname, oracles, paren(&cnt), free.join(" "), carried.join(" "), cpat, k))
     }
 
     fn seq_owned(&mut self, st: &[Stmt], conts: &[&[Stmt]]) -> R<String> {
@@ -1569,6 +1941,7 @@ impl<'a> Fx<'a> {
             Pat::Ident(i) => {
                 // a bare identifier that names a unit variant cannot occur (variants are always qualified here)
                 let n = i.ident.to_string();
+                if n == "None" { return Ok(n); }
                 self.tyenv.insert(n.clone(), sty.clone());
                 Ok(n)
             }
@@ -1615,7 +1988,7 @@ impl<'a> Fx<'a> {
                             names.push(n);
                         }
                         Pat::Wild(_) => names.push("_".into()),
-                        _ => return err("nested pattern", e.span()),
+                        other => { let t = payload.get(k).cloned().unwrap_or(Ty::Unknown); let g = self.gpat(other, &t)?; names.push(paren(&g)); }
                     }
                 }
                 // by-reference binding into a mutable place: mutations of the binding are written back
@@ -1629,7 +2002,101 @@ impl<'a> Fx<'a> {
                 }
                 Ok(format!("{}_{} {}", owner, var, names.join(" ")))
             }
+            _ => self.gpat(p, sty),
+        }
+    }
+
+    /// A (possibly nested) pattern as a Gallina pattern; binds the identifiers by value (no aliases).
+    fn gpat(&mut self, p: &Pat, sty: &Ty) -> R<String> {
+        let sty = self.resolve_self(sty.clone());
+        match p {
+            Pat::Wild(_) => Ok("_".into()),
+            Pat::Paren(pp) => self.gpat(&pp.pat, &sty),
+            Pat::Reference(r) => self.gpat(&r.pat, &sty),
+            Pat::Ident(i) => {
+                let n = i.ident.to_string();
+                if n == "None" { return Ok("None".into()); }
+                self.alias.remove(&n);
+                self.tyenv.insert(n.clone(), sty.clone());
+                Ok(n)
+            }
+            Pat::Path(pp) => Ok(self.path_expr(pp)?.0),
+            Pat::Or(o) => {
+                let mut alts = vec![];
+                for c in &o.cases { alts.push(self.gpat(c, &sty)?); }
+                Ok(alts.join(" | "))
+            }
+            Pat::Tuple(tp) => {
+                let tys = match &sty { Ty::Tuple(ts) => ts.clone(), _ => vec![Ty::Unknown; tp.elems.len()] };
+                let mut parts = vec![];
+                for (k, e) in tp.elems.iter().enumerate() { parts.push(self.gpat(e, tys.get(k).unwrap_or(&Ty::Unknown))?); }
+                Ok(format!("({})", parts.join(", ")))
+            }
+            Pat::TupleStruct(ts) if ts.path.segments.len() == 1 && ts.elems.len() == 1 && matches!(ts.path.segments[0].ident.to_string().as_str(), "Ok" | "Some" | "Err") => {
+                let head = ts.path.segments[0].ident.to_string();
+                let inner_ty = match (&sty, head.as_str()) { (Ty::Opt(t), _) | (Ty::Res(t), "Ok") => (**t).clone(), _ => Ty::Unknown };
+                let ctor = match (head.as_str(), &sty) { ("Some", _) => "Some", ("Ok", Ty::Res(_)) => "ROk", ("Err", Ty::Res(_)) => "RErr", ("Ok", _) => "Some", _ => return err("Err(_) pattern on a value that is not a Result<_, ErrorCode>", p.span()) };
+                let inner = self.gpat(&ts.elems[0], &inner_ty)?;
+                Ok(format!("{} {}", ctor, paren(&inner)))
+            }
+            Pat::TupleStruct(ts) => {
+                let segs = path_str(&ts.path);
+                if segs.len() < 2 { return err("unqualified tuple-struct pattern", p.span()); }
+                let owner = if segs[segs.len() - 2] == "Self" { self.self_ty.clone() } else { segs[segs.len() - 2].clone() };
+                let var = segs.last().unwrap().clone();
+                let payload = self.tr.enums.get(&owner).and_then(|vs| vs.iter().find(|(v, _)| *v == var)).map(|(_, t)| t.clone())
+                    .ok_or(format!("T8: unknown variant {}::{} in a pattern", owner, var))?;
+                let mut parts = vec![];
+                for (k, e) in ts.elems.iter().enumerate() { let g = self.gpat(e, payload.get(k).unwrap_or(&Ty::Unknown))?; parts.push(paren(&g)); }
+                Ok(format!("{}_{} {}", owner, var, parts.join(" ")).trim_end().to_string())
+            }
+            Pat::Struct(ps) => {
+                let segs = path_str(&ps.path);
+                if segs.len() >= 2 {
+                    // `Enum::Variant { .. }` on a tuple variant, or a struct variant
+                    let owner = if segs[segs.len() - 2] == "Self" { self.self_ty.clone() } else { segs[segs.len() - 2].clone() };
+                    let var = segs.last().unwrap().clone();
+                    if let Some(names) = self.tr.variant_fields.get(&(owner.clone(), var.clone())).cloned() {
+                        let tys = self.tr.enums.get(&owner).and_then(|vs| vs.iter().find(|(v, _)| *v == var)).map(|(_, t)| t.clone()).unwrap_or_default();
+                        let mut slots = vec!["_".to_string(); names.len()];
+                        for fp in &ps.fields {
+                            if let Member::Named(i) = &fp.member {
+                                let k = names.iter().position(|n| *n == i.to_string()).ok_or(format!("T8: unknown field {} of {}::{}", i, owner, var))?;
+                                let g = self.gpat(&fp.pat, tys.get(k).unwrap_or(&Ty::Unknown))?;
+                                slots[k] = paren(&g);
+                            }
+                        }
+                        return Ok(format!("{}_{} {}", owner, var, slots.join(" ")));
+                    }
+                    let payload = self.tr.enums.get(&owner).and_then(|vs| vs.iter().find(|(v, _)| *v == var)).map(|(_, t)| t.clone())
+                        .ok_or(format!("T8: unknown variant {}::{} in a pattern", owner, var))?;
+                    if !ps.fields.is_empty() { return err("named fields on a tuple variant", p.span()); }
+                    return Ok(format!("{}_{} {}", owner, var, vec!["_"; payload.len()].join(" ")).trim_end().to_string());
+                }
+                let owner = self.type_of_path(&ps.path)?;
+                let fields = self.tr.structs.get(&owner).ok_or(format!("T8: unknown struct {} in a pattern", owner))?.clone();
+                let mut slots = vec!["_".to_string(); fields.len()];
+                for fp in &ps.fields {
+                    let fname = match &fp.member { Member::Named(i) => i.to_string(), Member::Unnamed(i) => format!("f{}", i.index) };
+                    let k = fields.iter().position(|(n, _)| *n == fname).ok_or(format!("T8: unknown field {}.{}", owner, fname))?;
+                    let g = self.gpat(&fp.pat, &fields[k].1)?;
+                    slots[k] = paren(&g);
+                }
+                Ok(format!("mk{} {}", owner, slots.join(" ")))
+            }
             _ => err("pattern", p.span()),
+        }
+    }
+
+    /// does the Gallina pattern cover every value of its type?  (only the shapes that matter here)
+    fn irrefutable(p: &Pat) -> bool {
+        match p {
+            Pat::Wild(_) => true,
+            Pat::Ident(i) => i.ident != "None",
+            Pat::Paren(pp) => Self::irrefutable(&pp.pat),
+            Pat::Reference(r) => Self::irrefutable(&r.pat),
+            Pat::Tuple(t) => t.elems.iter().all(Self::irrefutable),
+            _ => false,
         }
     }
 }
@@ -1743,6 +2210,8 @@ fn main() {
         wrappers: None,
         derive_eq: false,
         oracles: vec![],
+        fuel: false,
+        use_fns: HashSet::new(),
     };
     let mut emit_consts = true;
     let mut i = 1;
@@ -1791,6 +2260,8 @@ fn main() {
             "--wrappers" => cfg.wrappers = Some(v.clone()),
             "--oracle" => { let (a, b) = v.split_once(':').expect("--oracle name:CoqType"); cfg.oracles.push((a.into(), b.into())); }
             "--derive-eq" => { cfg.derive_eq = true; i += 1; continue; }
+            "--fuel" => { cfg.fuel = true; i += 1; continue; }
+            "--use" => { cfg.use_fns.extend(v.split(',').map(|s| s.to_string())); }
             "--f64-decoded" => { cfg.f64_decoded = true; i += 1; continue; }
             "--impl-of" => { cfg.impl_of.extend(v.split(',').map(|s| s.to_string())); }
             "--drop-param" => { cfg.drop_params.extend(v.split(',').map(|s| s.to_string())); }
@@ -2031,6 +2502,11 @@ fn run(src: &str, types: &[String], imports: &[String], cfg: Cfg, emit_consts: b
                         if tr.cfg.skip_fns.contains(&name) {
                             continue;
                         }
+                        if tr.cfg.use_fns.contains(&name) {
+                            let sig = sig_of(&tr, &owner, &f.sig)?;
+                            tr.sigs.insert((owner.clone(), name), sig);
+                            continue;
+                        }
                         if let Some(only) = &tr.cfg.only_fns {
                             if !only.contains(&name) {
                                 continue;
@@ -2093,9 +2569,11 @@ fn run(src: &str, types: &[String], imports: &[String], cfg: Cfg, emit_consts: b
     // translate bodies
     let mut defs: Vec<(String, String, Vec<(String, String)>)> = vec![]; // (key, text, callees)
     for (sig, block, line) in &bodies {
-        let mut fx = Fx { tr: &tr, self_ty: sig.owner.clone(), outs: vec![], ret: sig.ret.clone(), tyenv: HashMap::new(), alias: HashMap::new(), fresh: 0, calls: vec![], ptr_src: HashMap::new() };
-        let mut header = format!("(* {}::{} — {}:{} *)\nDefinition {}_{} (W : N) (trap : bool)", sig.owner, sig.name, src_rel(src), line, sig.owner, sig.name);
+        let mut fx = Fx { tr: &tr, self_ty: sig.owner.clone(), outs: vec![], ret: sig.ret.clone(), tyenv: HashMap::new(), alias: HashMap::new(), fresh: 0, calls: vec![], ptr_src: HashMap::new(), loop_mode: None, lifted: vec![], full_ty: String::new(), fname: format!("{}_{}", sig.owner, sig.name), loops_done: HashMap::new() };
+        let kw = if !tr.cfg.fuel { "Definition" } else if defs.is_empty() { "Fixpoint" } else { "with" };
+        let mut header = format!("(* {}::{} — {}:{} *)\n{} {}_{} (W : N) (trap : bool)", sig.owner, sig.name, src_rel(src), line, kw, sig.owner, sig.name);
         for (o, t) in &tr.cfg.oracles { let _ = write!(header, " ({} : {})", o, t); }
+        if tr.cfg.fuel { header.push_str(" (fuel : nat)"); }
         let mut out_tys: Vec<String> = vec![];
         if let Some(m) = sig.recv {
             let st = tr.named(&sig.owner);
@@ -2120,8 +2598,19 @@ fn run(src: &str, types: &[String], imports: &[String], cfg: Cfg, emit_consts: b
             out_tys.push(rt.coq());
         }
         let full = if out_tys.is_empty() { "unit".to_string() } else { out_tys.join(" * ") };
-        let _ = write!(header, " : gres ({}) :=\n", full);
+        if tr.cfg.fuel {
+            let _ = write!(header, " {{struct fuel}} : gres ({}) :=\n  match fuel with O => GPanic P_fuel | S fuel' =>\n", full);
+        } else {
+            let _ = write!(header, " : gres ({}) :=\n", full);
+        }
+        fx.full_ty = full.clone();
         let body = fx.seq(&block.stmts, &[])?;
+        if tr.cfg.fuel {
+            let mut t = format!("{}{}\n  end\n", header, indent(&body));
+            for l in &fx.lifted { t.push_str(l); }
+            defs.push((format!("{}_{}", sig.owner, sig.name), t, vec![]));
+            continue;
+        }
         let callees: Vec<(String, String)> = tr.sigs.keys().filter(|(o, n)| calls_fn(&body, &format!("{}_{} W trap", o, n))).cloned().collect();
         defs.push((format!("{}_{}", sig.owner, sig.name), format!("{}{}.\n", header, indent(&body)), callees));
     }
@@ -2129,6 +2618,11 @@ fn run(src: &str, types: &[String], imports: &[String], cfg: Cfg, emit_consts: b
     let mut done: Vec<String> = vec![];
     let mut text_defs = String::new();
     let mut guard = 0;
+    if tr.cfg.fuel {
+        // one mutual Fixpoint on the fuel, in source order
+        for (k, t, _) in &defs { text_defs.push_str(t); done.push(k.clone()); }
+        text_defs = text_defs.trim_end().to_string() + ".\n";
+    }
     while done.len() < defs.len() {
         guard += 1;
         if guard > 200 {
@@ -2154,6 +2648,10 @@ fn run(src: &str, types: &[String], imports: &[String], cfg: Cfg, emit_consts: b
     imp.extend(imports.iter().cloned());
     let _ = writeln!(o, "From SFV Require Import {}.", imp.join(" "));
     let _ = writeln!(o, "Import ListNotations.\nOpen Scope N_scope.\n");
+    if tr.cfg.fuel {
+        // the members of the one Fixpoint do not all call each other
+        let _ = writeln!(o, "Local Set Warnings \"-non-full-mutual\".\n");
+    }
     if emit_consts {
         for it in &file.items {
             if let Item::Const(c) = it {
@@ -2198,7 +2696,7 @@ fn run(src: &str, types: &[String], imports: &[String], cfg: Cfg, emit_consts: b
             }
             if let Some(ds) = discr.get(n) {
                 // discriminants of a C-like enum (implicit ones continue from the previous)
-                let mut fx = Fx { tr: &tr, self_ty: n.clone(), outs: vec![], ret: Ty::Unit, tyenv: HashMap::new(), alias: HashMap::new(), fresh: 0, calls: vec![], ptr_src: HashMap::new() };
+                let mut fx = Fx { tr: &tr, self_ty: n.clone(), outs: vec![], ret: Ty::Unit, tyenv: HashMap::new(), alias: HashMap::new(), fresh: 0, calls: vec![], ptr_src: HashMap::new(), loop_mode: None, lifted: vec![], full_ty: String::new(), fname: String::new(), loops_done: HashMap::new() };
                 let _ = writeln!(o, "Definition {}_discr (W : N) (t : {}) : N :=\n  match t with", n, n);
                 let mut prev: Option<String> = None;
                 for (v, d) in ds {
@@ -2278,6 +2776,38 @@ fn ret_ty(tr: &Tr, t: &Type) -> R<Ty> {
         }
     }
     tr.ty(t)
+}
+
+/// identifiers, runs of operator characters, and single punctuation characters of a printed token stream
+fn rust_tokens(s: &str) -> Vec<String> {
+    let mut out = vec![];
+    let mut cur = String::new();
+    let mut kind = 0; // 1 = word, 2 = operator run
+    for ch in s.chars() {
+        let k = if ch.is_alphanumeric() || ch == '_' { 1 } else if "=<>!+-*/&|^%".contains(ch) { 2 } else { 0 };
+        if k != kind || k == 0 {
+            if !cur.is_empty() { out.push(std::mem::take(&mut cur)); }
+        }
+        if k != 0 { cur.push(ch); } else if !ch.is_whitespace() { out.push(ch.to_string()); }
+        kind = k;
+    }
+    if !cur.is_empty() { out.push(cur); }
+    out
+}
+
+fn has_word(body: &str, w: &str) -> bool {
+    let mut from = 0;
+    while let Some(k) = body[from..].find(w) {
+        let at = from + k;
+        let before = body[..at].chars().last();
+        let after = body[at + w.len()..].chars().next();
+        let idc = |c: Option<char>| matches!(c, Some(c) if c.is_alphanumeric() || c == '_' || c == '\'');
+        if !idc(before) && !idc(after) {
+            return true;
+        }
+        from = at + 1;
+    }
+    false
 }
 
 fn calls_fn(body: &str, pat: &str) -> bool {
